@@ -370,8 +370,10 @@ def no_dangling_owner(prog, res, rule, fns, exceptions=None):
                     K = key(f, args[pos])
                     if K and ("->" in K) and not K.endswith("[]") and K.count("->") == 1 and "." not in K.split("->")[1]:
                         frees.append((b, i, K, x))
+                    elif K and re.fullmatch(r"\*P:\d+", K):
+                        frees.append((b, i, K, x))      # an owner held through an out-parameter: *ctxPtr
         for b, i, K, call in frees:
-            root = K.split("->")[0]
+            root = K.split("->")[0] if "->" in K else K[1:]
             again = []
             for b2, i2, r2 in f.roots():
                 for y in walk(r2):
